@@ -526,6 +526,13 @@ func reifyMergeValue(
 		if err != nil {
 			return reflect.Value{}, err
 		}
+		// an unpacker that was already there is validated like a freshly allocated one
+		if err := runValidators(v.Interface(), opts.validators); err != nil {
+			return reflect.Value{}, raiseValidation(val.Context(), val.meta(), "", err)
+		}
+		if err := tryValidate(v); err != nil {
+			return reflect.Value{}, raiseValidation(val.Context(), val.meta(), "", err)
+		}
 		if oldValue.Kind() == reflect.Interface {
 			// the field keeps the (pointer to the) unpacker it holds
 			return oldValue, nil
